@@ -161,6 +161,11 @@ def run(chk):
             m = chk.rng.choice(["UnitBin", "UnitJson", "EmptyBin", "EmptyJson", "VecBin", "VecJson"])
             v = chk.rng.choice(["-", "-", "00", "05", "0102", "ff" * 40]) if m.startswith("Vec") else None
             calls.append("tiny:%s%s" % (m, ":" + v if v else ""))
+        if i == 1:
+            # a message whose encoding fails half-way (the call fails cleanly), followed by ordinary calls: nothing of the
+            # failed message may leak into what is sent next
+            calls = ["tiny:PoisonBin:6d616c6c6f7279:fail", "tiny:VecBin:616c696365", "tiny:PoisonJson:6d616c6c6f7279:fail", "tiny:VecJson:616c696365",
+                     "tiny:PoisonJson:0102:fail", "tiny:PoisonBin:0304:ok", "tiny:PoisonBin:0506:fail", "tiny:PoisonJson:0708:ok", "tiny:UnitBin", "tiny:EmptyJson"]
         if i == 0:
             calls = ["tiny:UnitBin", "tiny:UnitJson", "tiny:EmptyBin", "tiny:EmptyJson", "tiny:VecBin:-", "tiny:VecJson:-", "tiny:VecBin:0102", "tiny:VecJson:05"]
         tiny.append("typed " + " ".join(calls))
@@ -177,10 +182,15 @@ def run(chk):
             f = call.split(":")
             body = "()" if f[1].startswith("Unit") else "Empty" if f[1].startswith("Empty") else "[%s]" % ",".join(str(x) for x in bytes.fromhex(f[2].replace("-", "")))
             chk.count("tiny-message:" + f[1])
+            if len(f) > 3 and f[3] == "fail":
+                if not o.startswith("err:"):
+                    chk.monitor_fail("a typed call whose request cannot be encoded returned %s" % o[:80], dict(case=c, impl=a[:400]))
+                    break
+                continue
             if not o.startswith("ok:%s:200:" % body) or "done=31" not in o:
                 chk.monitor_fail("typed call %s: the handler answered Ok(%s) with a header, the caller got %s" % (f[1], body, o[:120]), dict(case=c, impl=a[:400]))
                 break
-        if log != ["Gamma." + call.split(":")[1] for call in calls]:
+        if log != ["Gamma." + call.split(":")[1] for call in calls if not call.endswith(":fail")]:
             chk.monitor_fail("tiny-message calls %s reached the handlers %s" % ([x.split(":")[1] for x in calls], log), dict(case=c, impl=a[:400]))
     chk.assumptions += ["serde_json / bincode message codecs are assumed to round-trip (Section hypotheses dec_enc_q / dec_enc_r of the typed-call theorems)",
                         "texts of framework-generated errors (codec failures) are not modelled: they are canonicalised to '*' before comparison"]
